@@ -353,6 +353,22 @@ func (w *w13) readHeadsEntries(slot int, l *ipfslog.IPFSLog) {
 	w.noteClosure(slot, "entries-not-closed", es)
 }
 
+// readEntries: GetEntries() alone (the fewest scheduling points around the copy it takes)
+func (w *w13) readEntries(slot int, l *ipfslog.IPFSLog) {
+	t0 := zvsync.Now()
+	es := l.GetEntries().Slice()
+	w.noteRead(slot, readRec{name: "GetEntries", call: t0, ret: zvsync.Now(), log: l, set: setOfEntries(es)})
+	seen := map[string]bool{}
+	for _, e := range es {
+		if e == nil || seen[e.GetHash().String()] {
+			w.obs.add(slot, "entries-invalid: GetEntries() returned nil or duplicate entries")
+			return
+		}
+		seen[e.GetHash().String()] = true
+	}
+	w.noteClosure(slot, "entries-not-closed", es)
+}
+
 func (w *w13) readLenGet(slot int, l *ipfslog.IPFSLog, known iface.IPFSLogEntry) {
 	n := l.Len()
 	if n < 0 {
@@ -462,6 +478,9 @@ func c13Scenarios(tier string) []Spec {
 		mk("S14-setidentity|setidentity|append", 3, b1, func(w *w13) []func() {
 			w.identityChanged = true
 			return []func(){func() { w.a.SetIdentity(world.IDs[2]) }, func() { w.a.SetIdentity(world.IDs[3]) }, func() { w.appendOp(2, w.a, "x1") }}
+		}, A, false),
+		mk("S15-join|entries", 2, b2, func(w *w13) []func() {
+			return []func(){func() { w.joinOp(0, w.a, w.b, -1, "join:A<-B") }, func() { w.readEntries(1, w.a) }}
 		}, A, false),
 		mk("S7-iterator|append", 2, b2, func(w *w13) []func() {
 			return []func(){func() { w.readIterator(0, w.a) }, func() { w.appendOp(1, w.a, "x1") }}
